@@ -291,9 +291,17 @@ def _request_numbers_unique(prog, chk):
     from ..core.locks import LockFlow
     ar = prog.func("SFTPClient._async_request")
     lf = LockFlow(prog, ar, implicit=True)
+    # the lock is given back on every way out, an exception while the request is being encoded included (it is not
+    # re-entrant: a leak blocks every later request of the session for ever although the server is idle)
+    leaks = lf.held_at_exit()
+    chk.ob("R6.lock-released-on-every-exit", "_async_request", not leaks, ar.loc,
+           "locks possibly still held at a normal or raising exit: %s" % (sorted(leaks) or "none"))
     uses = [n for n in lf.fl.cfg.nodes if n.id in lf.fl.live and n.ast is not None and n.kind in ("stmt", "cond", "for_iter", "return")
             and any(isinstance(x, ast.Attribute) and unparse(x) == "self.request_number" for x in ast.walk(n.ast))]
-    chk.floor("R6", "uses of request_number in _async_request", len(uses), 3)
+    if len(uses) < 3:
+        if leaks:
+            return      # the region is not what the remaining rules describe; the leak above is the finding
+        chk.floor("R6", "uses of request_number in _async_request", len(uses), 3)
     bad = [n for n in uses if not lf.holds(n, "self._lock")]
     chk.ob("R6.request-number-under-lock", "_async_request", not bad, ar.loc,
            "every read / write of self.request_number holds self._lock%s" % ("" if not bad else
